@@ -37,7 +37,8 @@ def check_closure_idioms(ctx, extra_roots=()):
                          check_returns_depend_alike)
     from .h5names import check_h5_names_created_once
     from .scatter import (check_pointer_scatter,
-                          check_pointer_window_rebased)
+                          check_pointer_window_rebased,
+                          check_converted_pointer_extent)
     from .tiling import (check_tiling, check_whole_axis,
                          check_window_writes, check_buffer_windows,
                          check_store_advances, check_batch_search,
@@ -88,6 +89,7 @@ def check_closure_idioms(ctx, extra_roots=()):
                      check_narrowing_cast, check_inplace_float_store,
                      check_h5_names_created_once, check_pointer_scatter,
                      check_pointer_window_rebased,
+                     check_converted_pointer_extent,
                      check_whole_axis, check_request_order,
                      check_unsort_pairs, check_sorted_results_unsorted,
                      check_parallel_windows_in_step,
